@@ -136,10 +136,16 @@ mod v_socket_dns {
         rq: [u8; 2],
         rqtype: u16,
         rqclass: u16,
+        /// the question has the queried name's layout `<1>x<1>y<0>` (else it is a strict prefix / extension of it)
+        qlayout_ok: bool,
+        /// offset of the first answer record
+        ans_off: usize,
     }
 
     /// 12-byte header, every field symbolic, then one question `<1>x<1>y<0> TYPE CLASS`
-    fn put_header_question(t: &mut Tpl, qclass: u16) -> Hdr {
+    /// `qshape`: 0 = `<1>x<1>y<0>`, 1 = `<1>x<0>` (strict prefix of the queried name's label sequence),
+    /// 2 = `<1>x<1>y<1>z<0>` (strict extension)
+    fn put_header_question(t: &mut Tpl, qclass: u16, qshape: u8) -> Hdr {
         let id = t.sym16();
         let flags = t.sym16();
         let qd = t.sym16();
@@ -148,14 +154,21 @@ mod v_socket_dns {
         let _ar = t.sym16();
         t.put(1);
         let r0 = t.sym();
-        t.put(1);
-        let r1 = t.sym();
+        let mut r1 = 0;
+        if qshape != 1 {
+            t.put(1);
+            r1 = t.sym();
+        }
+        if qshape == 2 {
+            t.put(1);
+            t.sym();
+        }
         t.put(0);
         let rqtype = t.sym16();
         // concrete: a symbolic CLASS makes Question::parse fail under a symbolic condition (see `Owner`)
         t.put16(qclass);
         let rqclass = qclass;
-        Hdr { id, flags, qd, an, rq: [r0, r1], rqtype, rqclass }
+        Hdr { id, flags, qd, an, rq: [r0, r1], rqtype, rqclass, qlayout_ok: qshape == 0, ans_off: t.n }
     }
 
     /// owner-name form of an answer record (the case split of DESIGN.md C19).  Pointer targets are concrete per
@@ -170,6 +183,8 @@ mod v_socket_dns {
         Ptr(usize),
         /// `<1>x` then a compression pointer to the given offset
         LabelPtr(usize),
+        /// `<1>x<1>y<1>z<0>`: a strict extension of the queried name's label sequence
+        InlineExt,
     }
     const SELF: usize = 0xffff;
 
@@ -208,6 +223,15 @@ mod v_socket_dns {
     fn put_owner(t: &mut Tpl, o: Owner) {
         match o {
             Owner::Inline => {
+                t.put(1);
+                t.sym();
+                t.put(1);
+                t.sym();
+                t.put(0);
+            }
+            Owner::InlineExt => {
+                t.put(1);
+                t.sym();
                 t.put(1);
                 t.sym();
                 t.put(1);
@@ -372,7 +396,8 @@ mod v_socket_dns {
         nrec: usize,
         o: [Owner; 2],
         rd: [Rd; 2],
-        /// CLASS of the question and of the records (1 = IN)
+        /// layout of the question name (see put_header_question), CLASS of the question and of the records (1 = IN)
+        qshape: u8,
         qclass: u16,
         class: [u16; 2],
         /// RDLENGTH minus the RDATA size the TYPE calls for
@@ -442,7 +467,7 @@ mod v_socket_dns {
 
         // the response
         let mut t = Tpl::new();
-        let hd = put_header_question(&mut t, f.qclass);
+        let hd = put_header_question(&mut t, f.qclass, f.qshape);
         let mut recs = [NOREC; 2];
         if f.nrec >= 1 {
             recs[0] = put_record(&mut t, f.o[0], f.rd[0], f.class[0], f.rdlen_delta[0]);
@@ -495,7 +520,7 @@ mod v_socket_dns {
         let rcode = (hd.flags & 0xf) as u8;
         let id_ok = hd.id == txid;
         let port_ok = dport == port;
-        let qname_ok = hd.qd == 1 && n >= ANS_OFF && hd.rq[0] == qn[0] && hd.rq[1] == qn[1];
+        let qname_ok = hd.qd == 1 && n >= hd.ans_off && hd.qlayout_ok && hd.rq[0] == qn[0] && hd.rq[1] == qn[1];
         let qtype_ok = hd.rqtype == type_val(is_a);
         // answer records whose owner is the queried name or the current end of the CNAME chain
         let mut exp_v4 = [true; 2];
@@ -635,7 +660,7 @@ mod v_socket_dns {
 
     /// one answer record owned by a pointer to the question name, A data, everything well formed
     const F_ONE: Form = Form {
-        nrec: 1, o: [Owner::Ptr(QN_OFF), Owner::Ptr(QN_OFF)], rd: [Rd::A, Rd::A], qclass: 1, class: [1, 1], rdlen_delta: [0, 0], cut: 0, complete: false, check_type: false, check_name: true,
+        nrec: 1, o: [Owner::Ptr(QN_OFF), Owner::Ptr(QN_OFF)], rd: [Rd::A, Rd::A], qshape: 0, qclass: 1, class: [1, 1], rdlen_delta: [0, 0], cut: 0, complete: false, check_type: false, check_name: true,
     };
     const F_TWO: Form = Form { nrec: 2, ..F_ONE };
     /// RDATA offset of record 1 when its owner is a 2-byte pointer
@@ -659,7 +684,7 @@ mod v_socket_dns {
         }};
     }
 
-    // @harness props=C19,C03 cfg=KN tier=q to=900 mem=12 unwind=7 opts=nomem covers=5 funcs=dns::Socket::accepts;dns::Socket::process;dns::Socket::start_query;wire::dns::Packet::parse_name;wire::dns::Question::parse;wire::dns::Record::parse;wire::dns::RecordData::parse;dns::eq_names;dns::copy_name bounds=query_name_<1>x<1>y_with_symbolic_label_bytes,_type_A_or_AAAA,_txid/port/timers_symbolic;_response_=_byte_template_with_symbolic_id/flags/QDCOUNT/ANCOUNT/NSCOUNT/ARCOUNT,_question_<1>x<1>y_with_symbolic_label_bytes_and_TYPE,_concrete_record_layout_per_arm_with_symbolic_TTL/RDATA;_source_any_IPv4_or_2001:db8::x,_ports_any;_one_A_record_owned_by_pointer_0xc00c
+    // @harness props=C19,C03 cfg=KN tier=q to=900 mem=12 unwind=7 opts=nomem kind=finding covers=5 funcs=dns::Socket::accepts;dns::Socket::process;dns::Socket::start_query;wire::dns::Packet::parse_name;wire::dns::Question::parse;wire::dns::Record::parse;wire::dns::RecordData::parse;dns::eq_names;dns::copy_name bounds=query_name_<1>x<1>y_with_symbolic_label_bytes,_type_A_or_AAAA,_txid/port/timers_symbolic;_response_=_byte_template_with_symbolic_id/flags/QDCOUNT/ANCOUNT/NSCOUNT/ARCOUNT,_question_<1>x<1>y_with_symbolic_label_bytes_and_TYPE,_concrete_record_layout_per_arm_with_symbolic_TTL/RDATA;_source_any_IPv4_or_2001:db8::x,_ports_any;_one_A_record_owned_by_pointer_0xc00c
     #[kani::proof]
     pub(crate) fn dns_process_ptrq_a() {
         let o = process_form(Form { complete: true, check_type: true, ..F_ONE });
@@ -670,7 +695,7 @@ mod v_socket_dns {
         kani::cover!(o.failed && o.rcode == 0 && o.an == 0, "answerless response failed the query");
     }
 
-    // @harness props=C19,C03 cfg=KN tier=q to=900 mem=12 unwind=7 opts=nomem covers=2 funcs=dns::Socket::accepts;dns::Socket::process;dns::Socket::start_query;wire::dns::Packet::parse_name;wire::dns::Question::parse;wire::dns::Record::parse;wire::dns::RecordData::parse;dns::eq_names;dns::copy_name bounds=query_name_<1>x<1>y_with_symbolic_label_bytes,_type_A_or_AAAA,_txid/port/timers_symbolic;_response_=_byte_template_with_symbolic_id/flags/QDCOUNT/ANCOUNT/NSCOUNT/ARCOUNT,_question_<1>x<1>y_with_symbolic_label_bytes_and_TYPE,_concrete_record_layout_per_arm_with_symbolic_TTL/RDATA;_source_any_IPv4_or_2001:db8::x,_ports_any;_one_AAAA_record_owned_by_pointer_0xc00c
+    // @harness props=C19,C03 cfg=KN tier=q to=900 mem=12 unwind=7 opts=nomem kind=finding covers=2 funcs=dns::Socket::accepts;dns::Socket::process;dns::Socket::start_query;wire::dns::Packet::parse_name;wire::dns::Question::parse;wire::dns::Record::parse;wire::dns::RecordData::parse;dns::eq_names;dns::copy_name bounds=query_name_<1>x<1>y_with_symbolic_label_bytes,_type_A_or_AAAA,_txid/port/timers_symbolic;_response_=_byte_template_with_symbolic_id/flags/QDCOUNT/ANCOUNT/NSCOUNT/ARCOUNT,_question_<1>x<1>y_with_symbolic_label_bytes_and_TYPE,_concrete_record_layout_per_arm_with_symbolic_TTL/RDATA;_source_any_IPv4_or_2001:db8::x,_ports_any;_one_AAAA_record_owned_by_pointer_0xc00c
     #[kani::proof]
     pub(crate) fn dns_process_ptrq_aaaa() {
         let o = process_form(Form { rd: [Rd::Aaaa, Rd::A], complete: true, check_type: true, ..F_ONE });
@@ -678,7 +703,7 @@ mod v_socket_dns {
         kani::cover!(o.acc && o.id_ok && o.port_ok && o.qr && !o.question_ok && !o.completed && !o.failed, "response rejected: other question");
     }
 
-    // @harness props=C19,C03 cfg=KN tier=q to=900 mem=12 unwind=7 opts=nomem covers=2 funcs=dns::Socket::accepts;dns::Socket::process;dns::Socket::start_query;wire::dns::Packet::parse_name;wire::dns::Question::parse;wire::dns::Record::parse;wire::dns::RecordData::parse;dns::eq_names;dns::copy_name bounds=query_name_<1>x<1>y_with_symbolic_label_bytes,_type_A_or_AAAA,_txid/port/timers_symbolic;_response_=_byte_template_with_symbolic_id/flags/QDCOUNT/ANCOUNT/NSCOUNT/ARCOUNT,_question_<1>x<1>y_with_symbolic_label_bytes_and_TYPE,_concrete_record_layout_per_arm_with_symbolic_TTL/RDATA;_source_any_IPv4_or_2001:db8::x,_ports_any;_the_single_answer_record_(owner_0xc00c)_is_a_CNAME_with_RDATA_<1>x+pointer_to_the_question's_last_label
+    // @harness props=C19,C03 cfg=KN tier=q to=900 mem=16 unwind=7 opts=nomem kind=finding covers=2 funcs=dns::Socket::accepts;dns::Socket::process;dns::Socket::start_query;wire::dns::Packet::parse_name;wire::dns::Question::parse;wire::dns::Record::parse;wire::dns::RecordData::parse;dns::eq_names;dns::copy_name bounds=query_name_<1>x<1>y_with_symbolic_label_bytes,_type_A_or_AAAA,_txid/port/timers_symbolic;_response_=_byte_template_with_symbolic_id/flags/QDCOUNT/ANCOUNT/NSCOUNT/ARCOUNT,_question_<1>x<1>y_with_symbolic_label_bytes_and_TYPE,_concrete_record_layout_per_arm_with_symbolic_TTL/RDATA;_source_any_IPv4_or_2001:db8::x,_ports_any;_the_single_answer_record_(owner_0xc00c)_is_a_CNAME_with_RDATA_<1>x+pointer_to_the_question's_last_label
     #[kani::proof]
     pub(crate) fn dns_process_cname_only() {
         let o = process_form(Form { rd: [Rd::CnameLabelPtr(QSUF_OFF), Rd::A], ..F_ONE });
@@ -789,7 +814,7 @@ mod v_socket_dns {
         kani::cover!(o.completed && o.cname_followed, "CNAME to a three-label name followed");
     }
 
-    // @harness props=C19,C03,C07 cfg=KN tier=q to=900 mem=12 unwind=7 opts=nomem covers=1 funcs=dns::Socket::accepts;dns::Socket::process;dns::Socket::start_query;wire::dns::Packet::parse_name;wire::dns::Question::parse;wire::dns::Record::parse;wire::dns::RecordData::parse;dns::eq_names;dns::copy_name bounds=query_name_<1>x<1>y_with_symbolic_label_bytes,_type_A_or_AAAA,_txid/port/timers_symbolic;_response_=_byte_template_with_symbolic_id/flags/QDCOUNT/ANCOUNT/NSCOUNT/ARCOUNT,_question_<1>x<1>y_with_symbolic_label_bytes_and_TYPE,_concrete_record_layout_per_arm_with_symbolic_TTL/RDATA;_source_any_IPv4_or_2001:db8::x,_ports_any;_CNAME_owned_by_0xc00c_with_RDATA_<1>x+pointer_to_itself_then_an_A_record_owned_by_a_pointer_to_that_RDATA
+    // @harness props=C19,C03,C07 cfg=KN tier=q to=900 mem=16 unwind=7 opts=nomem kind=finding covers=1 funcs=dns::Socket::accepts;dns::Socket::process;dns::Socket::start_query;wire::dns::Packet::parse_name;wire::dns::Question::parse;wire::dns::Record::parse;wire::dns::RecordData::parse;dns::eq_names;dns::copy_name bounds=query_name_<1>x<1>y_with_symbolic_label_bytes,_type_A_or_AAAA,_txid/port/timers_symbolic;_response_=_byte_template_with_symbolic_id/flags/QDCOUNT/ANCOUNT/NSCOUNT/ARCOUNT,_question_<1>x<1>y_with_symbolic_label_bytes_and_TYPE,_concrete_record_layout_per_arm_with_symbolic_TTL/RDATA;_source_any_IPv4_or_2001:db8::x,_ports_any;_CNAME_owned_by_0xc00c_with_RDATA_<1>x+pointer_to_itself_then_an_A_record_owned_by_a_pointer_to_that_RDATA
     #[kani::proof]
     pub(crate) fn dns_process_cname_loop() {
         let o = process_form(Form { o: [Owner::Ptr(QN_OFF), Owner::Ptr(RD1)], rd: [Rd::CnameLabelPtr(SELF), Rd::A], ..F_TWO });
@@ -825,6 +850,24 @@ mod v_socket_dns {
         let (sel, o) = one_of!(Form { rd: [Rd::A, Rd::Aaaa], ..F_TWO }, Form { rd: [Rd::Aaaa, Rd::Aaaa], ..F_TWO });
         kani::cover!(sel == 0 && o.completed && o.naddr == 2, "query completed with an IPv4 and an IPv6 address");
         kani::cover!(sel == 1 && o.completed && o.naddr == 2, "query completed with two IPv6 addresses");
+    }
+
+    // @harness props=C19,C03 cfg=KN tier=q to=900 mem=8 unwind=7 opts=nomem covers=2 funcs=dns::Socket::accepts;dns::Socket::process;dns::Socket::start_query;wire::dns::Packet::parse_name;wire::dns::Question::parse;wire::dns::Record::parse;wire::dns::RecordData::parse;dns::eq_names;dns::copy_name bounds=query_name_<1>x<1>y_with_symbolic_label_bytes,_type_A_or_AAAA,_txid/port/timers_symbolic;_response_=_byte_template_with_symbolic_id/flags/QDCOUNT/ANCOUNT/NSCOUNT/ARCOUNT,_question_with_symbolic_label_bytes_and_TYPE,_concrete_record_layout_per_arm_with_symbolic_TTL/RDATA;_source_any_IPv4_or_2001:db8::x,_ports_any;_arms:_the_response's_question_name_is_<1>x<0>_(strict_prefix_of_the_queried_label_sequence)_/_<1>x<1>y<1>z<0>_(strict_extension),_followed_by_an_A_record_owned_by_0xc00c
+    #[kani::proof]
+    pub(crate) fn dns_process_question_prefix_ext() {
+        let (sel, o) = one_of!(Form { qshape: 1, ..F_ONE }, Form { qshape: 2, ..F_ONE });
+        assert!(!o.completed, "prop:c19_completes_only_if_question_name_repeated");
+        kani::cover!(sel == 0 && o.acc && o.id_ok && o.port_ok && o.qr && o.an == 1 && !o.failed, "question naming a prefix of the queried name: response dropped");
+        kani::cover!(sel == 1 && o.acc && o.id_ok && o.port_ok && o.qr && o.an == 1 && !o.failed, "question naming an extension of the queried name: response dropped");
+    }
+
+    // @harness props=C19,C03 cfg=KN tier=q to=900 mem=8 unwind=7 opts=nomem covers=2 funcs=dns::Socket::accepts;dns::Socket::process;dns::Socket::start_query;wire::dns::Packet::parse_name;wire::dns::Question::parse;wire::dns::Record::parse;wire::dns::RecordData::parse;dns::eq_names;dns::copy_name bounds=query_name_<1>x<1>y_with_symbolic_label_bytes,_type_A_or_AAAA,_txid/port/timers_symbolic;_response_=_byte_template_with_symbolic_id/flags/QDCOUNT/ANCOUNT/NSCOUNT/ARCOUNT,_question_with_symbolic_label_bytes_and_TYPE,_concrete_record_layout_per_arm_with_symbolic_TTL/RDATA;_source_any_IPv4_or_2001:db8::x,_ports_any;_arms:_one_A_record_whose_owner_is_<1>x+pointer_to_the_question's_root_octet_(strict_prefix_of_the_queried_label_sequence)_/_inline_<1>x<1>y<1>z<0>_(strict_extension)
+    #[kani::proof]
+    pub(crate) fn dns_process_owner_prefix_ext() {
+        let (sel, o) = one_of!(Form { o: [Owner::LabelPtr(QROOT_OFF), Owner::Inline], ..F_ONE }, Form { o: [Owner::InlineExt, Owner::Inline], ..F_ONE });
+        assert!(!o.completed, "prop:c19_record_of_prefix_or_extension_name_never_completes_query");
+        kani::cover!(sel == 0 && o.failed && o.rcode == 0 && o.other_name && o.an == 1, "record owned by a prefix of the queried name ignored");
+        kani::cover!(sel == 1 && o.failed && o.rcode == 0 && o.other_name && o.an == 1, "record owned by an extension of the queried name ignored");
     }
 
     // @harness props=C19,C03,C07 cfg=KN tier=q to=900 mem=8 unwind=7 opts=nomem covers=2 funcs=dns::Socket::accepts;dns::Socket::process;dns::Socket::start_query;wire::dns::Packet::parse_name;wire::dns::Question::parse;wire::dns::Record::parse;wire::dns::RecordData::parse;dns::eq_names;dns::copy_name bounds=query_name_<1>x<1>y_with_symbolic_label_bytes,_type_A_or_AAAA,_txid/port/timers_symbolic;_response_=_byte_template_with_symbolic_id/flags/QDCOUNT/ANCOUNT/NSCOUNT/ARCOUNT,_question_<1>x<1>y_with_symbolic_label_bytes_and_TYPE,_concrete_record_layout_per_arm_with_symbolic_TTL/RDATA;_source_any_IPv4_or_2001:db8::x,_ports_any;_arms:_dns_process_ptrq_a's_template_with_question_CLASS_2_/_record_CLASS_2
@@ -1246,7 +1289,7 @@ mod v_socket_dns {
         kani::cover!(e.seen && !emit_ok, "device refused the packet");
     }
 
-    // @harness props=C19,C13 cfg=KN tier=q to=900 mem=6 unwind=7 opts=nomem covers=4 funcs=dns::Socket::poll_at;dns::Socket::dispatch bounds=pre-states_of_dns_dispatch_step;_probe_instant_anywhere_relative_to_poll_at
+    // @harness props=C19,C13 cfg=KN tier=q to=900 mem=6 unwind=7 opts=nomem kind=finding covers=4 funcs=dns::Socket::poll_at;dns::Socket::dispatch bounds=pre-states_of_dns_dispatch_step;_probe_instant_anywhere_relative_to_poll_at
     #[kani::proof]
     pub(crate) fn dns_poll_at_step() {
         dns_env!(dev, iface, cx, now);
